@@ -12,3 +12,6 @@ import BlackIt.Model.Checkpoint
 import BlackIt.Model.RLProtocol
 import BlackIt.Drv.RL
 import BlackIt.Model.Samplers
+import BlackIt.Model.Loss
+import BlackIt.Model.Gsl
+import BlackIt.Model.TimeSeries
